@@ -219,33 +219,36 @@ def hexVal (c : Char) : Nat :=
 /-- the unquote scan of `QuotedString.parseImpl` (`convert_whitespace_escapes=True`), with the
     numeric pattern as pyparsing 3.3.2 compiles it: `\\[0-7]3|\\0|\\x[0-9a-fA-F]2|\\u[0-9a-fA-F]4`.
     `esc` = an escape character is configured (string literals) or not (names);
-    `dotall` = multi-line string (`\` + LF is an escape pair). -/
-def unquote (esc dotall : Bool) : Str → Str
-  | '\\' :: 't' :: r => '\t' :: unquote esc dotall r
-  | '\\' :: 'n' :: r => '\n' :: unquote esc dotall r
-  | '\\' :: 'f' :: r => '\x0c' :: unquote esc dotall r
-  | '\\' :: 'r' :: r => '\r' :: unquote esc dotall r
-  | '\\' :: 'x' :: h :: '2' :: r =>
-    if isHex h then Char.ofNat (hexVal h * 16 + 2) :: unquote esc dotall r
-    else if esc then 'x' :: unquote esc dotall (h :: '2' :: r)
-    else '\\' :: 'x' :: unquote esc dotall (h :: '2' :: r)
-  | '\\' :: 'u' :: h :: '4' :: r =>
-    if isHex h then Char.ofNat (hexVal h * 16 + 4) :: unquote esc dotall r
-    else if esc then 'u' :: unquote esc dotall (h :: '4' :: r)
-    else '\\' :: 'u' :: unquote esc dotall (h :: '4' :: r)
-  | '\\' :: d :: '3' :: r =>
-    if '0' ≤ d && d ≤ '7' then d :: '3' :: unquote esc dotall r     -- `\d3` ↦ the two characters `d3`
-    else if esc && (dotall || d ≠ '\n') then d :: '3' :: unquote esc dotall r
-    else if d = '\\' then '\\' :: unquote esc dotall ('\\' :: '3' :: r)
-    else '\\' :: d :: '3' :: unquote esc dotall r
-  | '\\' :: '0' :: r => '\x00' :: unquote esc dotall r
+    `dotall` = multi-line string (`\` + LF is an escape pair).
+    `unquoteStep` is one match of the scan regex at the head of the text: (characters emitted,
+    characters consumed, ≥ 1 on non-empty input); alternatives in the regex's order: whitespace
+    escapes, numeric escapes, escaped character, any character. -/
+def unquoteStep (esc dotall : Bool) : Str → Str × Nat
   | '\\' :: d :: r =>
-    if esc && (dotall || d ≠ '\n') then d :: unquote esc dotall r
-    else if d = '\\' then '\\' :: unquote esc dotall ('\\' :: r)
-    else '\\' :: d :: unquote esc dotall r
-  | c :: r => c :: unquote esc dotall r
-  | [] => []
-termination_by s => s.length
+    if d = 't' then (['\t'], 2)
+    else if d = 'n' then (['\n'], 2)
+    else if d = 'f' then (['\x0c'], 2)
+    else if d = 'r' then (['\r'], 2)
+    else if ('0' ≤ d && d ≤ '7') && r.head? = some '3' then ([d, '3'], 3)      -- `\\[0-7]3` ↦ `d3`
+    else if d = '0' then (['\x00'], 2)
+    else if d = 'x' && (match r with | h :: '2' :: _ => isHex h | _ => false) then
+      ([Char.ofNat (hexVal (r.headD 'a') * 16 + 2)], 4)
+    else if d = 'u' && (match r with | h :: '4' :: _ => isHex h | _ => false) then
+      ([Char.ofNat (hexVal (r.headD 'a') * 16 + 4)], 4)
+    else if esc && (dotall || d ≠ '\n') then ([d], 2)
+    else (['\\'], 1)
+  | c :: _ => ([c], 1)
+  | [] => ([], 0)
+
+/-- the scan: `skip` characters are still covered by the previous match -/
+def unquoteAux (esc dotall : Bool) : Nat → Str → Str
+  | _, [] => []
+  | n + 1, _ :: r => unquoteAux esc dotall n r
+  | 0, c :: r =>
+    let st := unquoteStep esc dotall (c :: r)
+    st.1 ++ unquoteAux esc dotall (st.2 - 1) r
+
+def unquote (esc dotall : Bool) (s : Str) : Str := unquoteAux esc dotall 0 s
 
 /-- body of `'…'` / `"…"` with escape character: `(\\.|[^q\n\r\\])*` then `q`.
     Returns (raw body, rest after the closing quote). -/
